@@ -1421,6 +1421,10 @@ def string_convert(tokens):
     for token in tokens:
         # Strip double quotes from string:
         if token.typ == "STRING":
+            if token.val.startswith("L"):
+                raise CompilerError(
+                    "Wide string literals are not supported", loc=token.loc
+                )
             token.val = token.val[1:-1]
 
         if token.typ in ["STRING", "CHAR"]:
